@@ -228,6 +228,12 @@ def dateparse(val: str, t: type[DateTimeT]) -> DateTimeT:
     """
     if val.startswith("-P") and issubclass(t, datetime.timedelta):
         return -dateparse(val[1:], t)
+    if issubclass(t, datetime.time):
+        # pendulum drops the UTC offset of a time-only string (it assumes UTC).
+        with contextlib.suppress(ValueError):
+            parsed_time = datetime.time.fromisoformat(val)
+            if parsed_time.tzinfo is not None:
+                return parsed_time
     try:
         # When `exact=False`, the only two possibilities are DateTime and Duration.
         parsed: pendulum.DateTime | pendulum.Duration = pendulum.parse(val)  # type: ignore[assignment]
